@@ -12,11 +12,11 @@ func init() {
 }
 
 func checkC10(r *Run) {
-	r.Rule("R1", "ownership: Context.data is written only by Set and initialised only by the constructors' literals; outer and the mutex only by the literals; the embedded context only by the literals and NewContextWithContext", 2)
-	r.Rule("R2", "lookup order of Value: comma-ok lookup in the local map, hit decided by the ok flag (a stored nil still shadows), then outer when non-nil, then the embedded context", 2)
+	r.Rule("R1", "ownership: Context.data is written only by Set and initialised only by the constructors' literals; outer and the mutex only by the literals; the embedded context only by the literals and NewContextWithContext", 1)
+	r.Rule("R2", "lookup order of Value: comma-ok lookup in the local map, hit decided by the ok flag (a stored nil still shadows), then outer when non-nil, then the embedded context", 1)
 	r.Rule("R3", "Has is exactly Value(key) != nil", 1)
-	r.Rule("R4", "user value wins: in both constructors every default helper is Set only when absent from the new context and (with an outer) from the whole outer chain, tested with Has; the data argument is stored, not copied or overridden", 2)
-	r.Rule("R5", "children get a fresh map and the receiver as outer; Set writes only the receiver's map (C09.R2, C09.R3)", 3)
+	r.Rule("R4", "user value wins: in both constructors every default helper is Set only when absent from the new context and (with an outer) from the whole outer chain, tested with Has; the data argument is stored, not copied or overridden", 1)
+	r.Rule("R5", "children get a fresh map and the receiver as outer; Set writes only the receiver's map (C09.R2, C09.R3)", 1)
 	ownershipRule(r, "R1")
 	lookupOrderRule(r, "R2")
 	hasRule(r, "R3")
